@@ -466,6 +466,32 @@ func C11(r *core.Run) {
 	})
 	deaths = append(deaths, d5...)
 	offs = append(offs, nested...)
+	// a second file in rules/ that carries the id prefix and the rule, sorting before or after the real one: the
+	// target is ambiguous, nothing may be written
+	sibling, d6 := core.Parallel(r, "sibling", spec, 1, func(in in, shard, n int, emit func(offRes)) {
+		sb := filepath.Join(in.Dir, "sibling")
+		for _, sib := range []string{"REQUEST-123-TEST-local.conf", "REQUEST-123-TEST.conf.example", "REQUEST-123-ZZZ.conf", "AAA-123-COPY.conf", "REQUEST-123-TEST.conf~"} {
+			for _, mode := range []string{"single", "--all"} {
+				rf := func(re string) string { return rulesFile(ruleSpec{ID: "123456", Regex: re}) }
+				t := core.Tree{"regex-assembly/123456.ra": "fresh\n", "rules/REQUEST-123-TEST.conf": rf("OLD"), "rules/" + sib: rf("OLDSIBLING")}
+				os.RemoveAll(sb)
+				t.Materialise(sb)
+				args := []string{"-d", sb, "regex", "update", "123456"}
+				if mode == "--all" {
+					args[len(args)-1] = "--all"
+				}
+				rc := core.RunCLI(r.Crs, sb, "", nil, args...)
+				a, _ := os.ReadFile(filepath.Join(sb, "rules/REQUEST-123-TEST.conf"))
+				b, _ := os.ReadFile(filepath.Join(sb, "rules", sib))
+				// either the command refuses and writes nothing, or it updates the rule's own file and nothing else
+				refused := rc.Exit != 0 && string(a) == rf("OLD") && string(b) == rf("OLDSIBLING")
+				updated := rc.Exit == 0 && string(a) == rf("fresh") && string(b) == rf("OLDSIBLING")
+				emit(offRes{"sibling rules file " + sib, mode, refused || updated, fmt.Sprintf("exit %d; own file %q..., sibling changed: %v", rc.Exit, tailStr(string(a), 40), string(b) != rf("OLDSIBLING"))})
+			}
+		}
+	})
+	deaths = append(deaths, d6...)
+	offs = append(offs, sibling...)
 	deaths = append(deaths, d4...)
 	offs = append(offs, multi...)
 	deaths = append(deaths, d3...)
